@@ -43,9 +43,38 @@ pub struct ExtraPack {
     /// pack id class: 0 => 2+k, then 254+k, 256+k, 300+k, 65533+k (k = 0, 1: no collision)
     #[serde(default)]
     pub id_class: u8,
+    /// where the pack's file is written: 0 next to the entry point, 1 in a sub-directory of the
+    /// output directory, 2 in a sibling directory (its recorded location starts with `..`)
+    #[serde(default)]
+    pub place: u8,
+}
+
+/// copy `from/rel` to `to/rel`, creating directories; a no-op when both name the same file
+/// (a `..` placement reached from two sibling directories)
+pub fn copy_rel(from: &Path, to: &Path, rel: &str) {
+    let src = from.join(rel);
+    let dst = to.join(rel);
+    if let Some(p) = dst.parent() {
+        std::fs::create_dir_all(p).unwrap();
+    }
+    let same = match (std::fs::canonicalize(&src), std::fs::canonicalize(&dst)) {
+        (Ok(a), Ok(b)) => a == b,
+        _ => false,
+    };
+    if !same {
+        std::fs::copy(&src, &dst).unwrap();
+    }
 }
 
 impl ExtraPack {
+    /// file of the k-th extra pack relative to the output directory `dir`
+    pub fn rel_path(&self, k: usize, dir: &Path) -> String {
+        match self.place % 3 {
+            0 => format!("extra{k}.jbkc"),
+            1 => format!("sub/extra{k}.jbkc"),
+            _ => format!("../{}.sib/extra{k}.jbkc", dir.file_name().unwrap().to_string_lossy()),
+        }
+    }
     pub fn pack_id(&self, k: usize) -> u16 {
         [2u16, 254, 256, 300, 65533][(self.id_class % 5) as usize] + k as u16
     }
@@ -68,7 +97,7 @@ pub fn container_strategy(max_extra: usize, dir: BoxedStrategy<DirSpec>) -> Boxe
         comp_strategy(),
         small_content_seq_strategy(),
         prop::collection::vec(
-            (comp_strategy(), small_content_seq_strategy(), prop_oneof![4 => Just(0u8), 1 => 1u8..5]).prop_map(|(comp, contents, id_class)| ExtraPack { comp, contents, id_class }),
+            (comp_strategy(), small_content_seq_strategy(), prop_oneof![4 => Just(0u8), 1 => 1u8..5]).prop_map(|(comp, contents, id_class)| ExtraPack { comp, contents, id_class, place: 0 }),
             0..=max_extra,
         ),
         prop::bool::weighted(0.2),
@@ -148,7 +177,15 @@ pub fn build(
     let mut extras: Vec<jbk::creator::ContentPackCreator<dyn jbk::creator::PackRecipient>> = vec![];
     for (k, ep) in spec.extra_packs.iter().enumerate() {
         let pack_id = ep.pack_id(k);
-        let p = utf8(&dir.join(format!("extra{k}.jbkc")));
+        let rel = ep.rel_path(k, dir);
+        if let Some(parent) = dir.join(&rel).parent() {
+            std::fs::create_dir_all(parent).unwrap();
+        }
+        // the creator is given the plain path of the file (no `..` component in it)
+        let p = match (ep.place % 3, dir.parent()) {
+            (2, Some(up)) => utf8(&up.join(rel.trim_start_matches("../"))),
+            _ => utf8(&dir.join(&rel)),
+        };
         let f: Box<dyn jbk::creator::PackRecipient> = match jbk::creator::AtomicOutFile::new(&p) {
             Ok(f) => f,
             Err(e) => fail!("create-error", "AtomicOutFile::new: {e}"),
@@ -182,6 +219,11 @@ pub fn build(
         .map(|e| e.file_name().to_string_lossy().to_string())
         .collect();
     files.sort();
+    for (k, ep) in spec.extra_packs.iter().enumerate() {
+        if ep.place % 3 != 0 {
+            files.push(ep.rel_path(k, dir));
+        }
+    }
     Ok(Built {
         main_path: dir.join(name),
         dir: dir.to_path_buf(),
@@ -347,7 +389,9 @@ pub fn model_dump(model: &ContainerModel) -> (Dump, Vec<String>, Vec<(u16, u32)>
 /// A one-file container assembled with the low-level creators (ContainerPackCreator,
 /// ContentPackCreator, DirectoryPackCreator, ManifestPackCreator): `packs` content packs (ids 1..),
 /// each carrying `free_data_len` bytes of application free data in the manifest's value store.
-pub fn build_lowlevel(dir: &Path, name: &str, packs: &[(Comp, Vec<ContentSpec>)], free_data_len: usize, dirspec: &DirSpec) -> Result<Built, Failure> {
+/// `dir_slot`: how many content packs the manifest declares BEFORE the directory pack (0 = the
+/// order every high-level creator uses).
+pub fn build_lowlevel(dir: &Path, name: &str, packs: &[(Comp, Vec<ContentSpec>)], free_data_len: usize, dirspec: &DirSpec, dir_slot: usize) -> Result<Built, Failure> {
     let path = utf8(&dir.join(name));
     let io = |e: std::io::Error| Failure::new("create-error", format!("low-level container: {e}"));
     let jb = |e: jbk::creator::Error| Failure::new("create-error", format!("low-level container: {e}"));
@@ -379,8 +423,15 @@ pub fn build_lowlevel(dir: &Path, name: &str, packs: &[(Comp, Vec<ContentSpec>)]
     let dir_data = fin.write(&mut file).map_err(jb)?;
     container = file.close(dir_data.uuid).map_err(io)?;
     let mut manifest = jbk::creator::ManifestPackCreator::new(vendor(), Default::default());
-    manifest.add_pack(dir_data, "");
-    for d in datas {
+    let dir_slot = dir_slot.min(datas.len());
+    let mut dir_data = Some(dir_data);
+    for (k, d) in datas.into_iter().enumerate() {
+        if k == dir_slot {
+            manifest.add_pack(dir_data.take().unwrap(), "");
+        }
+        manifest.add_pack(d, "");
+    }
+    if let Some(d) = dir_data.take() {
         manifest.add_pack(d, "");
     }
     let mut file = container.into_file().map_err(io)?;
